@@ -423,6 +423,20 @@ func main() {
 		addStr("canAdd", src(ca.Body))
 		anl := control.fn("Controller", "addReplicaNoLock")
 		addStr("addReplicaNoLockRechecks", fmt.Sprint(strings.HasPrefix(src(anl.Body.List[0]), "if ok, err := c.canAdd(address); !ok")))
+		// AddReplica's two critical sections: which checks are made on which side of Create
+		{
+			var calls []string
+			ast.Inspect(control.fn("Controller", "addReplica"), func(x ast.Node) bool {
+				if c, ok := x.(*ast.CallExpr); ok {
+					switch s := src(c.Fun); s {
+					case "c.Lock", "c.Unlock", "c.canAdd", "c.verifyReplicationFactor", "c.factory.Create", "c.addReplicaNoLock", "newBackend.Close":
+						calls = append(calls, s)
+					}
+				}
+				return true
+			})
+			addStr("addReplicaOrder", strings.Join(calls, " ; "))
+		}
 		// the widening of sub-block writes while a WO replica is attached (C07)
 		if wf := control.fn("Controller", "widenForWONoLock"); wf != nil {
 			addStr("widenForWO", src(wf.Body))
